@@ -191,7 +191,7 @@ func genLineTree(r *rng.R, root spec.Kind) *spec.Spec {
 				case 3:
 					v = spec.FloatV(float64(r.Range(-50, 50)) / 4)
 				default:
-					v = spec.StrV([]string{"a", "line\nbreak", "x y", "", "[", "}", "a,b", "q\"q"}[r.Intn(8)])
+					v = spec.StrV([]string{"a", "line\nbreak", "x y", "", "[", "}", "a,b", "q\"q", "ls" + string(rune(0x2028)) + "x", "ps" + string(rune(0x2029)), "nel" + string(rune(0x85)), "cr\rcr", "vt\vff\f"}[r.Intn(13)])
 				}
 			}
 			if k == spec.List {
